@@ -34,149 +34,194 @@ func TestVerifC15Sequential(t *testing.T) {
 	rep := verifkit.NewReport("C15", "c15-sequential")
 	defer rep.Finish(t)
 	rep.Rule = "seeded random operation sequences (length <= 200) on SimpleQueue {Add, Pop, WaitForItem with live context on a non-empty queue, WaitForItem with cancelled context} against a reference FIFO, " +
-		"and on PriorityQueue {Add, Next, NextAll (with and without failing callback), Size} against a reference multiset ordered by counter; unique item ids. distinct = sequences"
+		"and on PriorityQueue {Add, Next, NextAll (with and without failing callback), Size} against a reference multiset ordered by counter; unique item ids, and items that were handed out earlier added again (the same item, as the message store does after a failed processing). A sequence whose only goroutine ends up waiting for the queue's own mutex is a deadlock (decided from the goroutine state). distinct = sequences"
 	nseq := verifkit.Pick(1500, 20000)
 	for s := 0; s < nseq; s++ {
 		rng := verifkit.Rand(fmt.Sprintf("c15-seq-%d", s))
 		var id int64
 		var trace []string
-		if s%2 == 0 {
-			q := NewSimpleQueue[*c15Item]("q", &noopTracer[*c15Item]{})
-			var ref []*c15Item
-			n := 1 + rng.Intn(200)
-			for i := 0; i < n; i++ {
-				switch op := rng.Intn(10); {
-				case op < 4:
-					id++
-					it := &c15Item{id: id}
-					q.Add(it)
-					ref = append(ref, it)
-					trace = append(trace, fmt.Sprintf("add(%d)", id))
-				case op < 7:
-					got, ok := q.Pop()
-					trace = append(trace, "pop")
-					if len(ref) == 0 {
-						if ok || got != nil {
-							rep.Violate("C15/fifo/pop-on-empty", "Pop on an empty queue returned an item", trace)
-						}
-					} else {
-						if !ok || got != ref[0] {
-							rep.Violate("C15/fifo/order", "Pop did not return the oldest item", tail(trace))
-						}
-						ref = ref[1:]
-					}
-				case op < 9:
-					if len(ref) == 0 {
-						continue // would block
-					}
-					got, ok := q.WaitForItem(context.Background())
-					trace = append(trace, "wait")
-					if !ok || got != ref[0] {
-						rep.Violate("C15/fifo/order", "WaitForItem did not return the oldest item", tail(trace))
-					}
-					ref = ref[1:]
-				default:
-					ctx, cancel := context.WithCancel(context.Background())
-					cancel()
-					got, ok := q.WaitForItem(ctx)
-					trace = append(trace, "wait(cancelled)")
-					if ok || got != nil {
-						rep.Violate("C15/cancelled-wait-returns-item", "a wait whose context is already cancelled returned an item", tail(trace))
-						if len(ref) > 0 && got == ref[0] {
+		var yielded []*c15Item // items handed out earlier: the message store parks such items again after a failure
+		seqDone := make(chan struct{})
+		go func() {
+			defer close(seqDone)
+			c15SeqMarker(func() {
+				if s%2 == 0 {
+					q := NewSimpleQueue[*c15Item]("q", &noopTracer[*c15Item]{})
+					var ref []*c15Item
+					n := 1 + rng.Intn(200)
+					for i := 0; i < n; i++ {
+						switch op := rng.Intn(10); {
+						case op < 4:
+							id++
+							it := &c15Item{id: id}
+							if len(yielded) > 0 && rng.Intn(4) == 0 {
+								it = yielded[rng.Intn(len(yielded))] // the very same item again
+							}
+							q.Add(it)
+							ref = append(ref, it)
+							trace = append(trace, fmt.Sprintf("add(%d)", id))
+						case op < 7:
+							got, ok := q.Pop()
+							trace = append(trace, "pop")
+							if len(ref) == 0 {
+								if ok || got != nil {
+									rep.Violate("C15/fifo/pop-on-empty", "Pop on an empty queue returned an item", trace)
+								}
+							} else {
+								if !ok || got != ref[0] {
+									rep.Violate("C15/fifo/order", "Pop did not return the oldest item", tail(trace))
+								}
+								yielded = append(yielded, ref[0])
+								ref = ref[1:]
+							}
+						case op < 9:
+							if len(ref) == 0 {
+								continue // would block
+							}
+							got, ok := q.WaitForItem(context.Background())
+							trace = append(trace, "wait")
+							if !ok || got != ref[0] {
+								rep.Violate("C15/fifo/order", "WaitForItem did not return the oldest item", tail(trace))
+							}
 							ref = ref[1:]
+						default:
+							ctx, cancel := context.WithCancel(context.Background())
+							cancel()
+							got, ok := q.WaitForItem(ctx)
+							trace = append(trace, "wait(cancelled)")
+							if ok || got != nil {
+								rep.Violate("C15/cancelled-wait-returns-item", "a wait whose context is already cancelled returned an item", tail(trace))
+								if len(ref) > 0 && got == ref[0] {
+									ref = ref[1:]
+								}
+							}
 						}
 					}
-				}
-			}
-			// drain
-			for _, want := range ref {
-				got, ok := q.Pop()
-				if !ok || got != want {
-					rep.Violate("C15/fifo/conservation", "draining the queue does not return the remaining items in order", tail(trace))
-					break
-				}
-			}
-			if _, ok := q.Pop(); ok {
-				rep.Violate("C15/fifo/duplicate", "the queue holds more items than were added", tail(trace))
-			}
-		} else {
-			pq := NewPriorityQueue[*c15Item]("pq", &noopTracer[*c15Item]{})
-			ref := map[int64]*c15Item{}
-			minOf := func() *c15Item {
-				var m *c15Item
-				for _, it := range ref {
-					if m == nil || it.counter < m.counter {
-						m = it
-					}
-				}
-				return m
-			}
-			n := 1 + rng.Intn(200)
-			for i := 0; i < n; i++ {
-				switch op := rng.Intn(10); {
-				case op < 5:
-					id++
-					it := &c15Item{id: id, counter: uint64(rng.Intn(40))}
-					if rng.Intn(10) == 0 {
-						it.counter = ^uint64(0) - uint64(rng.Intn(3))
-					}
-					pq.Add(it)
-					ref[it.id] = it
-					trace = append(trace, fmt.Sprintf("add(id%d,c%d)", it.id, it.counter))
-				case op < 8:
-					got := pq.Next()
-					trace = append(trace, "next")
-					if len(ref) == 0 {
-						if got != nil {
-							rep.Violate("C15/heap/next-on-empty", "Next on an empty queue returned an item", tail(trace))
+					// drain
+					for _, want := range ref {
+						got, ok := q.Pop()
+						if !ok || got != want {
+							rep.Violate("C15/fifo/conservation", "draining the queue does not return the remaining items in order", tail(trace))
+							break
 						}
-						continue
 					}
-					m := minOf()
-					if got == nil || got.counter != m.counter {
-						rep.Violate("C15/heap/not-minimum", fmt.Sprintf("Next returned counter %v, the smallest pending counter is %d", counterOf(got), m.counter), tail(trace))
+					if _, ok := q.Pop(); ok {
+						rep.Violate("C15/fifo/duplicate", "the queue holds more items than were added", tail(trace))
 					}
-					if got != nil {
-						if _, ok := ref[got.id]; !ok {
-							rep.Violate("C15/heap/duplicate", "Next returned an item that is not pending", tail(trace))
+				} else {
+					pq := NewPriorityQueue[*c15Item]("pq", &noopTracer[*c15Item]{})
+					ref := map[int64]*c15Item{}
+					minOf := func() *c15Item {
+						var m *c15Item
+						for _, it := range ref {
+							if m == nil || it.counter < m.counter {
+								m = it
+							}
 						}
-						delete(ref, got.id)
+						return m
 					}
-				case op < 9:
+					n := 1 + rng.Intn(200)
+					for i := 0; i < n; i++ {
+						switch op := rng.Intn(10); {
+						case op < 5:
+							id++
+							it := &c15Item{id: id, counter: uint64(rng.Intn(40))}
+							if rng.Intn(10) == 0 {
+								it.counter = ^uint64(0) - uint64(rng.Intn(3))
+							}
+							if len(yielded) > 0 && rng.Intn(3) == 0 {
+								// an item that was yielded before and is not pending now is parked again (same item, same counter)
+								if old := yielded[rng.Intn(len(yielded))]; ref[old.id] == nil {
+									it = old
+								}
+							}
+							pq.Add(it)
+							ref[it.id] = it
+							trace = append(trace, fmt.Sprintf("add(id%d,c%d)", it.id, it.counter))
+						case op < 8:
+							got := pq.Next()
+							trace = append(trace, "next")
+							if len(ref) == 0 {
+								if got != nil {
+									rep.Violate("C15/heap/next-on-empty", "Next on an empty queue returned an item", tail(trace))
+								}
+								continue
+							}
+							m := minOf()
+							if got == nil || got.counter != m.counter {
+								rep.Violate("C15/heap/not-minimum", fmt.Sprintf("Next returned counter %v, the smallest pending counter is %d", counterOf(got), m.counter), tail(trace))
+							}
+							if got != nil {
+								if _, ok := ref[got.id]; !ok {
+									rep.Violate("C15/heap/duplicate", "Next returned an item that is not pending", tail(trace))
+								}
+								delete(ref, got.id)
+							}
+						case op < 9:
+							if sz := pq.Size(); sz != len(ref) {
+								rep.Violate("C15/heap/size", fmt.Sprintf("Size=%d, %d items pending", sz, len(ref)), tail(trace))
+							}
+						default:
+							failAt := -1
+							if rng.Intn(3) == 0 {
+								failAt = rng.Intn(4)
+							}
+							var last uint64
+							k := 0
+							_ = pq.NextAll(func(it *c15Item) error {
+								if k > 0 && it.counter < last {
+									rep.Violate("C15/heap/not-minimum", "NextAll yields items out of counter order", tail(trace))
+								}
+								last = it.counter
+								if _, ok := ref[it.id]; !ok {
+									rep.Violate("C15/heap/duplicate", "NextAll yields an item that is not pending", tail(trace))
+								}
+								delete(ref, it.id)
+								yielded = append(yielded, it)
+								k++
+								if k-1 == failAt {
+									return fmt.Errorf("stop")
+								}
+								return nil
+							})
+							trace = append(trace, fmt.Sprintf("nextall(fail@%d)", failAt))
+							if failAt < 0 && len(ref) != 0 {
+								rep.Violate("C15/heap/lost", "NextAll returned without yielding every pending item", tail(trace))
+							}
+						}
+					}
 					if sz := pq.Size(); sz != len(ref) {
-						rep.Violate("C15/heap/size", fmt.Sprintf("Size=%d, %d items pending", sz, len(ref)), tail(trace))
+						rep.Violate("C15/heap/conservation", fmt.Sprintf("at the end Size=%d but %d items are pending by the reference", sz, len(ref)), tail(trace))
 					}
-				default:
-					failAt := -1
-					if rng.Intn(3) == 0 {
-						failAt = rng.Intn(4)
+				}
+			})
+		}()
+		// only this sequence's goroutine touches its queue: if it sits in a mutex acquisition inside the queue package, nobody
+		// can ever release that mutex. That is decided from the goroutine's state, not from elapsed time.
+		stuck := false
+		for waiting := true; waiting; {
+			select {
+			case <-seqDone:
+				waiting = false
+			case <-time.After(20 * time.Millisecond):
+				for _, g := range verifsched.Goroutines() {
+					inSeq, inQueueLock := false, false
+					for _, f := range g.Frames {
+						inSeq = inSeq || strings.Contains(f, "c15SeqMarker")
+						inQueueLock = inQueueLock || strings.Contains(f, "internal/queue.(*SimpleQueue") || strings.Contains(f, "internal/queue.(*PriorityQueue")
 					}
-					var last uint64
-					k := 0
-					_ = pq.NextAll(func(it *c15Item) error {
-						if k > 0 && it.counter < last {
-							rep.Violate("C15/heap/not-minimum", "NextAll yields items out of counter order", tail(trace))
-						}
-						last = it.counter
-						if _, ok := ref[it.id]; !ok {
-							rep.Violate("C15/heap/duplicate", "NextAll yields an item that is not pending", tail(trace))
-						}
-						delete(ref, it.id)
-						k++
-						if k-1 == failAt {
-							return fmt.Errorf("stop")
-						}
-						return nil
-					})
-					trace = append(trace, fmt.Sprintf("nextall(fail@%d)", failAt))
-					if failAt < 0 && len(ref) != 0 {
-						rep.Violate("C15/heap/lost", "NextAll returned without yielding every pending item", tail(trace))
+					if inSeq && inQueueLock && (strings.Contains(g.State, "Mutex") || strings.Contains(g.State, "semacquire")) {
+						stuck, waiting = true, false
 					}
 				}
 			}
-			if sz := pq.Size(); sz != len(ref) {
-				rep.Violate("C15/heap/conservation", fmt.Sprintf("at the end Size=%d but %d items are pending by the reference", sz, len(ref)), tail(trace))
+		}
+		if stuck {
+			rep.Violate("C15/deadlock/sequential", "a single task using the queue alone is blocked acquiring the queue's own mutex: an earlier call returned with the mutex held", fmt.Sprintf("sequence %d (seed label c15-seq-%d)", s, s))
+			if rep.ViolationCount() >= 3 {
+				break
 			}
+			continue
 		}
 		rep.Case(fmt.Sprintf("seq-%d-%d", s, len(trace)))
 		if s < 2 {
@@ -184,6 +229,11 @@ func TestVerifC15Sequential(t *testing.T) {
 		}
 	}
 }
+
+// c15SeqMarker only puts a recognisable frame on the stack of a sequence's goroutine.
+//
+//go:noinline
+func c15SeqMarker(f func()) { f() }
 
 func counterOf(i *c15Item) interface{} {
 	if i == nil {
@@ -222,11 +272,11 @@ type c15Scenario struct {
 }
 
 type c15Outcome struct {
-	ops        []c15Op
-	stuck      bool // consumer parked in WaitForItem's select with a non-empty list and nobody left to signal
-	residual   int
+	ops         []c15Op
+	stuck       bool // consumer parked in WaitForItem's select with a non-empty list and nobody left to signal
+	residual    int
 	cancelledOK bool
-	notes      string
+	notes       string
 }
 
 var c15Clock atomic.Int64
